@@ -159,6 +159,10 @@ func (r *Run) Eval(desc string, nontrivial bool) {
 		h = hh.Sum64()
 	}
 	r.mu.Lock()
+	if r.Quiet { // negative controls are not evaluations
+		r.mu.Unlock()
+		return
+	}
 	r.evals++
 	if nontrivial {
 		r.nontriv[h] = struct{}{}
@@ -219,7 +223,7 @@ func (r *Run) Distinct(set, member string) {
 
 func (r *Run) Sample(v interface{}) {
 	r.mu.Lock()
-	if len(r.samples) < r.maxSamples {
+	if len(r.samples) < r.maxSamples && !r.Quiet {
 		r.samples = append(r.samples, v)
 	}
 	r.mu.Unlock()
